@@ -263,6 +263,77 @@ func (v *Verifier) PackageObligations() []*PkgObligation {
 	}
 	out = append(out, &PkgObligation{Name: "pkg#register-callers", Props: []string{"C04", "C08"}, Holds: okC,
 		Detail: strings.Join(callers, ", "), Desc: "register is called only while rendering a package token (token.render, Group.renderItems); found: " + strings.Join(callers, ", ")})
+	// C02/C12: every token value built in the package satisfies the token type invariant (wfTok) by
+	// construction, and no function assigns to a field of an existing token. This is what justifies
+	// assuming treeOK (every stored item is a well-formed token or another Code) in the render contracts.
+	{
+		var bad []string
+		sites := 0
+		textual := map[string]bool{"package": true, "identifier": true, "keyword": true, "operator": true, "delimiter": true, "layout": true, "qualified": true}
+		for _, f := range v.eff.all {
+			for _, b := range f.Blocks {
+				for _, in := range b.Instrs {
+					al, ok := in.(*ssa.Alloc)
+					if !ok {
+						continue
+					}
+					el := al.Type().Underlying().(*types.Pointer).Elem()
+					if n, ok := el.(*types.Named); !ok || n.Obj().Name() != "token" || n.Obj().Pkg() != v.enc.tpkg {
+						continue
+					}
+					sites++
+					typ, contentT := "", types.Type(nil)
+					hasTyp := false
+					for _, ref := range *al.Referrers() {
+						fa, ok := ref.(*ssa.FieldAddr)
+						if !ok {
+							continue
+						}
+						for _, r2 := range *fa.Referrers() {
+							st, ok := r2.(*ssa.Store)
+							if !ok || st.Addr != ssa.Value(fa) {
+								continue
+							}
+							if fa.Field == 0 {
+								if c, ok := st.Val.(*ssa.Const); ok {
+									if s, ok := stringConst(c); ok {
+										typ, hasTyp = s, true
+									}
+								}
+							} else if mi, ok := st.Val.(*ssa.MakeInterface); ok {
+								contentT = mi.X.Type()
+							} else {
+								contentT = st.Val.Type() // already an interface{}: any value (Lit's documented precondition)
+							}
+						}
+					}
+					where := fnDisplay(f)
+					switch {
+					case !hasTyp:
+						// a local that receives an existing token (type assertion, range variable): not a construction site
+						sites--
+					case textual[typ]:
+						if b, ok := contentT.(*types.Basic); !ok || b.Kind() != types.String {
+							bad = append(bad, fmt.Sprintf("%s: %s token whose content is %v, not a string", where, typ, contentT))
+						}
+					case typ == "literal_rune":
+						if b, ok := contentT.(*types.Basic); !ok || b.Kind() != types.Int32 {
+							bad = append(bad, fmt.Sprintf("%s: rune literal token whose content is %v", where, contentT))
+						}
+					case typ == "literal_byte":
+						if b, ok := contentT.(*types.Basic); !ok || b.Kind() != types.Uint8 {
+							bad = append(bad, fmt.Sprintf("%s: byte literal token whose content is %v", where, contentT))
+						}
+					case typ == "literal", typ == "null":
+					default:
+						bad = append(bad, fmt.Sprintf("%s: token of unknown type %q", where, typ))
+					}
+				}
+			}
+		}
+		out = append(out, &PkgObligation{Name: "pkg#token-sites", Props: []string{"C02", "C12", "C11", "C01", "C13"}, Holds: len(bad) == 0 && sites > 0,
+			Detail: strings.Join(bad, "; "), Desc: fmt.Sprintf("all %d construction sites of token values pair the token type with a content of the right static type (string for textual tokens, rune for rune literals, byte for byte literals)", sites)})
+	}
 	// C14: every construct exists as function, *Statement method and *Group method with the same parameters
 	{
 		var bad []string
